@@ -473,7 +473,32 @@ def link_layer_header_rx_wiring(c):
             clause="(USB 3.2 §7.2.4.1.5) a header with an unexpected sequence number sends the link to recovery")
 
 
+def protocol_layer_header_fanout(c):
+    """USB3ProtocolLayer.elaborate(): "each accepted header is offered to the protocol layer exactly once and in order" ends at the
+    protocol layer's header consumers.  Between the link layer's header_source and them sits the HeaderQueueDemultiplexer: every
+    consumer is shown the queue's head (valid + every field) in the same cycle, and the head leaves the queue exactly when a
+    consumer takes it -- so a header is neither shown twice nor popped unseen."""
+    from luna.gateware.usb.usb3.protocol.transaction import TransactionPacketReceiver
+    from luna.gateware.usb.usb3.protocol.data import DataHeaderReceiver
+    from luna.gateware.usb.usb3.protocol.timestamp import TimestampPacketReceiver
+    from luna.gateware.usb.usb3.protocol.link_management import LinkManagementPacketHandler
+    from .c46_ss_in_endpoint import open_protocol_layer, header_queue_consumer_sees
+    d, link, ts = open_protocol_layer(c)
+    of = ts.of
+    consumers = [ts.instance(k) for k in (LinkManagementPacketHandler, TimestampPacketReceiver, DataHeaderReceiver, TransactionPacketReceiver)]
+    for u in consumers:
+        c.lemma(f"{type(u).__name__}_sees_the_head_of_the_received_header_queue",
+                header_queue_consumer_sees(ts, u.header_sink, link.header_source),
+                clause="each accepted header is offered to the protocol layer exactly once and in order: what each protocol-layer "
+                       "consumer is shown (valid, every header field) is the head of the link layer's queue in the same cycle")
+    c.lemma("received_header_leaves_the_queue_iff_a_consumer_takes_it",
+            (of(link.header_source.ready) == 1) == z3.Or(*[of(u.header_sink.ready) == 1 for u in consumers]),
+            clause="offered exactly once: the head is popped exactly in a cycle in which a consumer accepts it")
+    c.cosim_cycles = 16
+
+
 def contracts(tier):
+    yield ("USB3ProtocolLayer", "wiring_header_fanout", protocol_layer_header_fanout)
     yield ("RawHeaderPacketReceiver", "", raw_receiver)
     yield ("HeaderPacketReceiver", "u0", header_receiver)
     yield ("USB3LinkLayer", "wiring_header_rx", link_layer_header_rx_wiring)
